@@ -73,7 +73,7 @@ func standardPhases(mons []string, suffix int, thorough bool) []Phase {
 	for _, s := range seeds {
 		d0 = append(d0, s3Items(s, 0, nil, nil, mons, suffix)...)
 	}
-	add("S3 d=0 on 26 seeds (static 3/4, silent 4/5, late witness, join 3->4, leave 4->3, join 2->3, two leaves in one block, join+leave in one block, 2 one-way laggards of 7, 1 of 4, leave then re-join, join refused by the application, partitions 2|2 and 3|2 that heal, identical transaction bytes submitted repeatedly at one node and at several nodes, five irregular 200-step schedules with a leave or a join + leave and slow fame elections, signed internal transactions of an unknown type, and static4 / join 3->4 / leave 4->3 with one node keeping its store in a Badger database among in-memory nodes)", d0)
+	add(fmt.Sprintf("S3 d=0 on %d seeds", len(seeds))+" (a minority validator's loaded event unheard of for ten rounds, static 4 / static 2 / late witness with rotating submissions, static 3/4, silent 4/5, late witness, join 3->4, leave 4->3, join 2->3, two leaves in one block, join+leave in one block, 2 one-way laggards of 7, 1 of 4, leave then re-join, join refused by the application, partitions 2|2 and 3|2 that heal, identical transaction bytes submitted repeatedly at one node and at several nodes, five irregular 200-step schedules with a leave or a join + leave and slow fame elections, signed internal transactions of an unknown type, and static4 / join 3->4 / leave 4->3 with one node keeping its store in a Badger database among in-memory nodes)", d0)
 	// S2: seed prefix + exhaustive window + fair suffix
 	w3 := "win:3:-1:" + scStatic3
 	wj := "win:4:-1:" + scJoin3
